@@ -105,6 +105,70 @@ static void handle(size_t nw, char **w) {
 		if (sm2_ecdh(&key, peer.p, peer.n, out) == 1) puthex(out, 64); else printf("ERR");
 		free(peer.p); free(out);
 	}
+	else if (!strcmp(w[0], "encpre") && nw == 2) {
+		/* sm2_encrypt_pre_compute with scripted entropy: k,x,y of every slot */
+		SM2_ENC_PRE_COMP *pc = malloc(sizeof(SM2_ENC_PRE_COMP) * SM2_ENC_PRE_COMP_NUM); int i; uint8_t kb[32];
+		install_entropy(w[1]);
+		if (sm2_encrypt_pre_compute(pc) == 1) {
+			for (i = 0; i < SM2_ENC_PRE_COMP_NUM; i++) {
+				if (i) putchar(';');
+				sm2_z256_to_bytes(pc[i].k, kb); puthex(kb, 32); putchar(','); puthex(pc[i].C1.x, 32); putchar(','); puthex(pc[i].C1.y, 32);
+			}
+			printf(" %04lx", ent.draws);
+		} else printf("ERR");
+		drop_entropy(); free(pc);
+	}
+	else if (!strcmp(w[0], "encex") && nw == 6) {
+		/* encex P M k x y : sm2_do_encrypt_ex with the given slot */
+		buf_t m = hex2buf(w[2]), k = hex2buf(w[3]), x = hex2buf(w[4]), y = hex2buf(w[5]);
+		SM2_ENC_PRE_COMP *pc = malloc(sizeof(*pc)); SM2_CIPHERTEXT *c = malloc(sizeof(*c)); int r;
+		if (key_from_P(&key, w[1]) != 1 || k.n != 32 || x.n != 32 || y.n != 32) printf("ERR key");
+		else {
+			sm2_z256_from_bytes(pc->k, k.p); memcpy(pc->C1.x, x.p, 32); memcpy(pc->C1.y, y.p, 32);
+			no_entropy();
+			r = sm2_do_encrypt_ex(&key, pc, m.p, m.n, c);
+			if (r == 1) { uint8_t *out = malloc(SM2_MAX_CIPHERTEXT_SIZE), *p = out; size_t outlen = 0;
+				if (sm2_ciphertext_to_der(c, &p, &outlen) == 1) puthex(out, outlen); else printf("ERR der"); free(out); }
+			else printf(r == 0 ? "RETRY" : "ERR");
+		}
+		free(m.p); free(k.p); free(x.p); free(y.p); free(pc); free(c);
+	}
+	else if (!strcmp(w[0], "encpreex") && nw == 4) {
+		/* encpreex P M ent : pre-compute, then sm2_do_encrypt_ex with EACH slot */
+		buf_t m = hex2buf(w[2]); SM2_ENC_PRE_COMP *pc = malloc(sizeof(SM2_ENC_PRE_COMP) * SM2_ENC_PRE_COMP_NUM); int i, r;
+		if (key_from_P(&key, w[1]) != 1) { printf("ERR key"); free(m.p); free(pc); return; }
+		install_entropy(w[3]);
+		if (sm2_encrypt_pre_compute(pc) == 1) {
+			for (i = 0; i < SM2_ENC_PRE_COMP_NUM; i++) {
+				SM2_CIPHERTEXT *c = malloc(sizeof(*c));
+				if (i) putchar(',');
+				r = sm2_do_encrypt_ex(&key, &pc[i], m.p, m.n, c);
+				if (r == 1) { uint8_t *out = malloc(SM2_MAX_CIPHERTEXT_SIZE), *p = out; size_t outlen = 0;
+					if (sm2_ciphertext_to_der(c, &p, &outlen) == 1) puthex(out, outlen); else printf("ERR"); free(out); }
+				else printf(r == 0 ? "RETRY" : "ERR");
+				free(c);
+			}
+			printf(" %04lx", ent.draws);
+		} else printf("ERR");
+		drop_entropy(); free(m.p); free(pc);
+	}
+	else if (!strcmp(w[0], "ectxr") && nw == 4) {
+		/* ectxr P rounds ent : one SM2_ENC_CTX over several messages (updates, finish, reset) */
+		SM2_ENC_CTX *ctx = malloc(sizeof(*ctx)); char *save = NULL, *rd; int first = 1, ok = 1;
+		char *outs = malloc(1 << 17); size_t on = 0;
+		if (key_from_P(&key, w[1]) != 1) { printf("ERR key"); free(ctx); free(outs); return; }
+		install_entropy(w[3]);
+		if (sm2_encrypt_init(ctx) != 1) ok = 0;
+		for (rd = strtok_r(w[2], ";", &save); ok && rd; rd = strtok_r(NULL, ";", &save)) {
+			size_t k = split_chunks(rd, ch, MAXC), i, outlen = 0, j; uint8_t *out = malloc(SM2_MAX_CIPHERTEXT_SIZE);
+			for (i = 0; ok && i < k; i++) if (sm2_encrypt_update(ctx, ch[i].p, ch[i].n) != 1) ok = 0;
+			if (ok && sm2_encrypt_finish(ctx, &key, out, &outlen) != 1) ok = 0;
+			if (ok) { if (!first) outs[on++] = ','; for (j = 0; j < outlen; j++) on += sprintf(outs + on, "%02x", out[j]); first = 0; sm2_encrypt_reset(ctx); }
+			free(out); free_chunks(ch, k);
+		}
+		if (ok) { outs[on] = 0; printf("%s %04lx", outs, ent.draws); } else printf("ERR");
+		drop_entropy(); free(ctx); free(outs);
+	}
 	else printf("ERR unknown-op");
 }
 
